@@ -145,9 +145,9 @@ structure Graph where
   live group-start member that has *some* completed output (`true`, code as found) or only the
   prerequisites on its completed outputs (`false`, repaired) -/
   anyOutput : Bool := true
-  /-- behaviour flag (probed from the live code): `_remove_matched_tasks` writes the erased history of each matched
-  id to the database at once (`true`, repaired) or leaves the operations queued until the next commit (`false`,
-  code as found) -/
+  /-- behaviour flag (probed from the live code): `_remove_matched_tasks` commits the pending DB operations before it
+  starts and writes the erased history of each matched id to the database at once (`true`, repaired), or reads the
+  committed rows only and leaves its operations queued until the next commit (`false`, code as found) -/
   rmCommits : Bool := false
   /-- behaviour flag (probed from the live code): a matched id whose pooled proxy is in none of the given flows is
   still removed from those flows in the DB and its children stand down (`true`, repaired); or nothing at all
@@ -1352,6 +1352,8 @@ def removeCore (g : Graph) (s : State) (ids : List (Int × String)) (flows : Lis
 
 /-- `_remove_matched_tasks(ids, flow_nums)` -/
 def removeMatched (g : Graph) (s : State) (ids : List (Int × String)) (flows : List Nat) : State :=
+  -- (repaired code) pending DB operations are written first: `remove_task_from_flows` reads the committed rows
+  let s := if g.rmCommits then dbFlush s else s
   let (s, toKill, any) := removeCore g s ids flows
   let s := if toKill.isEmpty then s else killTasks g s toKill
   if any then
